@@ -116,7 +116,10 @@ theorem step_writer {c : WriteCursor} (xs ys : List Nat)
       rw [hrc] at h
       by_cases hf : c'.pos + ys.length ≤ c'.buf.length
       · rw [if_pos hf] at h; cases h
-      · rw [if_neg hf]; rfl
+      · rw [if_neg hf] at h ⊢
+        obtain ⟨e1, st1⟩ := e
+        simp only [Res.forget, Res.err.injEq] at h
+        subst h; rfl
     | panic s =>
       rw [hrc] at h
       by_cases hf : c'.pos + ys.length ≤ c'.buf.length
@@ -239,7 +242,8 @@ theorem step_reader {α γ ε : Type} {buf : Bytes} (f : α → γ) (m : Option 
     | err e =>
       obtain ⟨st, hst⟩ := hk e
       obtain ⟨e1, st1⟩ := e
-      cases e1
+      simp only [Res.forget, rdF, Res.err.injEq] at hr
+      subst hr
       simp only [Exec.callFrom, hst, Exec.forget, Exec.bind, rdBind]
   | some x =>
     obtain ⟨a, r'⟩ := x
